@@ -137,7 +137,7 @@ fn near_boundary(i: &BigInt) -> bool {
     pts.iter().any(|p| (i - p).magnitude() <= &num_bigint::BigUint::from(2u8))
 }
 
-pub const PROBES: [&str; 24] = [
+pub const PROBES: [&str; 26] = [
     "output_lovelace",
     "output_token",
     "mint",
@@ -162,6 +162,8 @@ pub const PROBES: [&str; 24] = [
     "token_terms_subtracted_from_a_value_without_them",
     "lovelace_terms_subtracted_from_nothing",
     "datum_integer_picked_by_index",
+    "mint_with_a_lovelace_term",
+    "burn_with_a_lovelace_term",
 ];
 
 pub fn boundary_values() -> Vec<BigInt> {
@@ -247,6 +249,15 @@ pub fn probe(kind: usize, x: &BigInt, y: &BigInt) -> Case {
             let mut o = base_out(two_ada.clone());
             o.datum = Some(GExpr::Index(Box::new(GExpr::List(vec![GExpr::Int(11), GExpr::Int(22), GExpr::Int(33)])), px()));
             tx.outputs.push(o);
+        }
+        // the mint field holds native assets only: a lovelace term can neither be minted nor quietly left out
+        "mint_with_a_lovelace_term" => {
+            tx.mints.push(GMint { amount: GExpr::Add(Box::new(GExpr::Asset(0, Box::new(GExpr::Int(5)))), Box::new(GExpr::Ada(px()))), redeemer: None });
+            tx.outputs.push(base_out(two_ada.clone()));
+        }
+        "burn_with_a_lovelace_term" => {
+            tx.burns.push(GMint { amount: GExpr::Add(Box::new(GExpr::Asset(0, Box::new(GExpr::Int(5)))), Box::new(GExpr::Ada(px()))), redeemer: None });
+            tx.outputs.push(base_out(two_ada.clone()));
         }
         "metadata_value" => {
             tx.metadata = Some(vec![(GExpr::Int(7), GExpr::Param(0))]);
